@@ -35,7 +35,7 @@ LEVEL_NOTE = "Trusted: the two identifier-legality regexes (cross-checked by com
 TAGS = ["", "<p>", "<state>", "<cond>", "<func>", "<ret_state>"]
 CHARS = ["a", "A", "_", "0", "^", "*"]
 EXTRA_BODIES = ["a b", "é", "local_a", "lploc_a", "global_a", "drtf_hoisted", "a_0", "p_a", "dagrt_refcnt_a",
-                "dagrt_t", "if", "0a", "x" * 70]
+                "dagrt_t", "if", "0a", "x" * 70, "x" * 70 + "y"]
 
 
 def bodies():
@@ -64,7 +64,10 @@ def pool(reduced=False):
 
 
 FORTRAN_ONLY = [("unique", "hoisted"), ("unique", "a"), ("unique", "A"), ("refcount", "a"), ("refcount", "<p>a"),
-                ("refcount", "A")]
+                ("refcount", "A"),
+                # reference counters of two long names that agree in everything the truncation keeps
+                ("refcount", "<p>" + "x" * 70), ("refcount", "<p>" + "x" * 70 + "y"), ("refcount", "x" * 70),
+                ("refcount", "x" * 70 + "y")]
 
 PY_RESERVED_SELF = {"t", "dt", "next_phase", "_numpy", "_functions", "phase_transition_table", "run",
                     "run_single_step", "set_up", "StateComputed", "StepCompleted", "StepFailed"}
